@@ -20,6 +20,7 @@ type Outcome struct {
 }
 
 type Engine struct {
+	visited       map[*ssa.BasicBlock]bool // blocks of the unit's function entered by some explored path
 	prog          *ssa.Program
 	pkgs          map[string]*ssa.Package
 	inc           *Inc
@@ -38,7 +39,7 @@ type Engine struct {
 	unfoldBudget  int
 	recApps       map[string]recApp  // rendered application -> (fn,args)
 	recAxioms     map[string][]*Term // definitional equations of recursive applications (computed once)
-	recTemplates map[string]recApp // per abstracted function: one registered application (shape of the arguments)
+	recTemplates  map[string]recApp  // per abstracted function: one registered application (shape of the arguments)
 	noMerge       bool
 	unitFn        *ssa.Function
 	opaque        map[string]bool // spec functions kept abstract at call sites
@@ -138,6 +139,7 @@ type loopEffects struct {
 	all      bool // a call whose effect is not analysed: every family
 	dyn      bool // a call through a function value
 	maps     bool // a map update
+	iters    bool // a map iterator advances
 }
 
 func (e *Engine) loopWrites(fn *ssa.Function, h *ssa.BasicBlock) (names map[string]bool, heapWrite bool, bufWrite bool) {
@@ -211,6 +213,8 @@ func (e *Engine) blockEffects(b *ssa.BasicBlock, fx *loopEffects, seen map[*ssa.
 		switch i := ins.(type) {
 		case *ssa.Store:
 			e.storeEffect(i.Addr, fx, top)
+		case *ssa.Next:
+			fx.iters = true // the set of keys already produced changes
 		case *ssa.MapUpdate:
 			fx.maps = true // maps are havocked wholesale at loop heads
 		case *ssa.Call:
@@ -554,6 +558,9 @@ func (e *Engine) run(st *State, fr *Frame, b *ssa.BasicBlock, idx int) []Outcome
 		instrs := b.Instrs
 		for ; idx < len(instrs); idx++ {
 			ins := instrs[idx]
+			if fr.fn == e.unitFn && !st.spec {
+				e.visited[b] = true
+			}
 			if e.trace {
 				fmt.Printf("    [%s b%d] %s\n", fr.fn.Name(), b.Index, ins)
 			}
@@ -615,6 +622,17 @@ func (e *Engine) run(st *State, fr *Frame, b *ssa.BasicBlock, idx int) []Outcome
 				fr.regs[i] = e.typeAssert(st, fr, i)
 			case *ssa.MakeMap:
 				fr.regs[i] = MapV{st.newObj(newMapObj(i.Type().Underlying().(*types.Map), false))}
+			case *ssa.Range:
+				mv, ok := e.get(st, fr, i.X).(MapV)
+				if !ok {
+					fail("range over %T (only maps are iterated through an iterator)", e.get(st, fr, i.X))
+				}
+				m := st.objs[mv.ID].(*MapObj)
+				ks := sortOf(&Term{W: m.KeyW})
+				seen := &Term{Leaf: "((as const (Array " + ks + " Bool)) false)", W: -1, Sort: "(Array " + ks + " Bool)"}
+				fr.regs[i] = IterV{st.newObj(&IterObj{Map: mv.ID, Seen: seen})}
+			case *ssa.Next:
+				fr.regs[i] = e.mapNext(st, fr, i)
 			case *ssa.Lookup:
 				fr.regs[i] = e.mapLookup(st, fr, i)
 			case *ssa.MapUpdate:
@@ -908,6 +926,9 @@ func (e *Engine) unop(st *State, fr *Frame, i *ssa.UnOp) Val {
 	case token.MUL:
 		return e.load(st, x, i.Type())
 	case token.NOT:
+		if t := asTerm(x); t.hasSk {
+			fail("a quantified goal (vspec.Forall / ForallKeys) is negated in a contract clause: a skolemised quantifier is only valid in positive positions; state the negative case with vspec.Exists or with an explicit witness")
+		}
 		return Not(asTerm(x))
 	case token.SUB:
 		return Neg(asTerm(x))
@@ -935,6 +956,24 @@ func (e *Engine) unop(st *State, fr *Frame, i *ssa.UnOp) Val {
 }
 
 func (e *Engine) binop(st *State, op token.Token, xv, yv Val, xt types.Type, ins ssa.Instruction) Val {
+	if a, ok := xv.(*Term); ok && (op == token.EQL || op == token.NEQ) && a.W == 0 {
+		if b, ok := yv.(*Term); ok && (a.hasSk || b.hasSk) {
+			fail("a quantified goal (vspec.Forall / ForallKeys) is compared with == / != in a contract clause: a skolemised quantifier is only valid in positive positions; split the clause by polarity")
+		}
+	}
+	// arrays of scalars compare element-wise
+	if a, ok := xv.(ArrayV); ok {
+		if b, ok := yv.(ArrayV); ok && len(a.E) == len(b.E) && (op == token.EQL || op == token.NEQ) {
+			c := tTrue
+			for k := range a.E {
+				c = And(c, Eq(asTerm(a.E[k]), asTerm(b.E[k])))
+			}
+			if op == token.NEQ {
+				return Not(c)
+			}
+			return c
+		}
+	}
 	// nil comparisons
 	switch a := xv.(type) {
 	case SliceV:
@@ -2129,6 +2168,9 @@ func (e *Engine) mapLookup(st *State, fr *Frame, i *ssa.Lookup) Val {
 			return Ite(present, Select(arr, k, 64), zero)
 		}
 		sl := SliceV{Base: comp("base"), Off: comp("off"), Len: comp("len"), Cap: comp("cap"), Elem: u.Elem()}
+		if m.Own && !st.spec {
+			st.assumeT(Or(Eq(sl.Base, zero), ULt(alloc0, sl.Base)))
+		}
 		if !st.spec {
 			lim := BVu(1<<40, 64)
 			st.assumeT(And(SLe(zero, sl.Off), SLt(sl.Off, lim), SLe(zero, sl.Len), SLe(sl.Len, sl.Cap), SLt(sl.Cap, lim),
@@ -2162,7 +2204,8 @@ func (e *Engine) mapUpdate(st *State, fr *Frame, i *ssa.MapUpdate) {
 			na.Sort = "(Array " + ks + " I64)"
 			nv[c] = na
 		}
-		st.objs[mv.ID] = &MapObj{Dom: nd, Vals: nv, KeyW: m.KeyW, ValT: m.ValT, Own: m.Own, T: m.T}
+		own := m.Own && e.valid(st, Or(Eq(sl.Base, BVu(0, 64)), ULt(alloc0, sl.Base)))
+		st.objs[mv.ID] = &MapObj{Dom: nd, Vals: nv, KeyW: m.KeyW, ValT: m.ValT, Own: own, T: m.T}
 		return
 	}
 	p, ok := val.(PtrHeap)
@@ -2442,4 +2485,77 @@ func globalMapTable(g *ssa.Global, mt *types.Map) (GlobalMapV, bool) {
 		}
 	}
 	return out, len(out.Keys) > 0
+}
+
+// Map iteration. A Go map is iterated in an unspecified order, each key present at the start exactly once (the
+// functions under contract do not insert into or delete from the map they iterate). Model: the iterator carries
+// the set of keys produced so far; next yields an arbitrary key that is present and has not been produced, or
+// reports the end, in which case every present key has been produced.
+type IterV struct{ ID int }
+type IterObj struct {
+	Map  int
+	Seen *Term // Array K Bool
+}
+
+func (e *Engine) mapNext(st *State, fr *Frame, i *ssa.Next) Val {
+	if i.IsString {
+		fail("range over a string")
+	}
+	iv, ok := e.get(st, fr, i.Iter).(IterV)
+	if !ok {
+		fail("next on %T", e.get(st, fr, i.Iter))
+	}
+	it := st.objs[iv.ID].(*IterObj)
+	m := st.objs[it.Map].(*MapObj)
+	ks := sortOf(&Term{W: m.KeyW})
+	k := Sym(fresh("iterkey"), m.KeyW)
+	okT := Sym(fresh("iterok"), 0)
+	// ok: a present key not produced before
+	st.assumeT(Implies(okT, And(Select(m.Dom, k, 0), Not(Select(it.Seen, k, 0)))))
+	// end: nothing is left (a named quantified fact without a memory read: instantiated at loop parameters and at
+	// the skolem constants of goals)
+	bv := BoundVar(fresh("k"), m.KeyW)
+	body := Implies(Select(m.Dom, bv, 0), Select(it.Seen, bv, 0))
+	qf := &Term{Leaf: fresh("qf"), W: 0, QDef: Forall(bv, body)}
+	registerQFacts(qf, bv, body, nil)
+	st.assumeT(Implies(Not(okT), qf))
+	st.instantiate(fmt.Sprintf("map|%d", it.Map), k)
+	st.instantiateLoose(k)
+	ns := Store(it.Seen, k, tTrue)
+	ns.Sort = "(Array " + ks + " Bool)"
+	sel := &Term{Op: "ite", Args: []*Term{okT, ns, it.Seen}, W: -1, Sort: "(Array " + ks + " Bool)"}
+	st.objs[iv.ID] = &IterObj{Map: it.Map, Seen: sel}
+	// the key and the value as Go values
+	tup := i.Type().(*types.Tuple)
+	var kv Val = k
+	if at, isArr := tup.At(1).Type().Underlying().(*types.Array); isArr {
+		av := ArrayV{T: tup.At(1).Type()}
+		n := int(at.Len())
+		for j := 0; j < n; j++ {
+			hi := m.KeyW - 8*j - 1
+			av.E = append(av.E, Extract(hi, hi-7, k))
+		}
+		kv = av
+	}
+	var vv Val
+	switch u := m.ValT.Underlying().(type) {
+	case *types.Slice:
+		comp := func(c string) *Term { return Select(m.Vals[c], k, 64) }
+		sl := SliceV{Base: comp("base"), Off: comp("off"), Len: comp("len"), Cap: comp("cap"), Elem: u.Elem()}
+		zero, lim := BVu(0, 64), BVu(1<<40, 64)
+		st.assumeT(Implies(okT, And(SLe(zero, sl.Off), SLt(sl.Off, lim), SLe(zero, sl.Len), SLe(sl.Len, sl.Cap), SLt(sl.Cap, lim),
+			Implies(Eq(sl.Base, zero), Eq(sl.Cap, zero)))))
+		if m.Own {
+			st.assumeT(Implies(okT, Or(Eq(sl.Base, zero), ULt(alloc0, sl.Base))))
+		} else {
+			st.assumeT(Implies(okT, ULt(sl.Base, alloc0)))
+			sl.Base.Pre = false
+		}
+		vv = sl
+	case *types.Pointer:
+		vv = PtrHeap{Ref: Select(m.Vals["p"], k, 64), Root: u.Elem()}
+	default:
+		fail("range over a map with values of type %s", typeName(m.ValT))
+	}
+	return TupleV{okT, kv, vv}
 }
